@@ -63,7 +63,10 @@ fn gen_script(rng: &mut Rng) -> Vec<String> {
 }
 
 fn strings() -> Vec<String> {
-    let pieces = ["", "a", "Z9", "\u{e9}", "\u{30DE}", "\"", "\\", "\\\"", " ", "\t", "\r\n", "obMatJos2", "AAAA", "gA==", "\u{C0}\u{80}", "\u{80}", "\u{7f}", "\0", "realm.org", ":"];
+    let pieces = ["", "a", "Z9", "\u{e9}", "\u{30DE}", "\"", "\\", "\\\"", " ", "\t", "\r\n", "obMatJos2", "AAAA", "gA==", "\u{C0}\u{80}", "\u{80}", "\u{7f}", "\0", "realm.org", ":",
+        // Unicode white space and friends (char::is_whitespace / is_control / normalisation differ from the ASCII classes)
+        "\u{85}", "\u{a0}", "\u{c0}\u{a0}", "\u{c0}\u{85}", "\u{1680}", "\u{2003}", "\u{2028}", "\u{2029}", "\u{202f}", "\u{3000}",
+        "e\u{301}", "\u{ad}", "\u{200b}", "\u{feff}", "\u{212b}", "\u{fb01}", "\u{9f}", "\u{10ffff}"];
     let mut v: Vec<String> = vec![];
     for a in pieces { for b in pieces { v.push(format!("{}{}", a, b)); v.push(format!("obMatJos2{}{}", a, b)); } }
     for n in [507usize, 508, 509, 510, 762, 763, 764, 64000, 64001] { v.push("x".repeat(n)); v.push(format!("{}\u{e9}", "y".repeat(n - 1))) }
